@@ -538,8 +538,8 @@ example : (∀ d ∈ exPre, d.ctl = true) ∧ StrictSorted (exPre ++ [.attrs (.v
   refine ⟨by decide, ?_, ?_, ?_, ?_, ?_⟩ <;> simp [StrictSorted, exPre, Dir.rank]
 
 /-- … also with a `py:def` among the nested directives (`attr_form_eq_elem_form`) -/
-example : (∀ d ∈ Dir.def_ ['f'] [['p']] :: exPre, d.ctlDef = true) ∧
-    StrictSorted ((Dir.def_ ['f'] [['p']] :: exPre) ++ [.attrs (.var ['w']), .strip none]) ∧
+example : (∀ d ∈ Dir.def_ ['f'] [(['p'], some (.lit (.atom (.int 1))))] :: exPre, d.ctlDef = true) ∧
+    StrictSorted ((Dir.def_ ['f'] [(['p'], some (.lit (.atom (.int 1))))] :: exPre) ++ [.attrs (.var ['w']), .strip none]) ∧
     StRel exSt0 exSt0 := by
   refine ⟨by decide, ?_, StRel.refl _⟩
   simp [StrictSorted, exPre, Dir.rank]
